@@ -31,6 +31,7 @@ it reads the time -- the experiment for cross-clock programs.
 import json, os, sys, struct, threading, time, math, random, logging, hashlib
 from fractions import Fraction
 
+import decimal
 import c05_kscript as K5                       # initialises sc3 in SC3_MODE (and LIB_PORT) at import
 from c05_kscript import fr, num, lat_of, parse_packet, msg_id, merge, MODE
 
@@ -39,6 +40,7 @@ from sc3.base.stream import Routine, Condition, FlowVar, StopStream
 from sc3.base.clock import SystemClock, AppClock, TempoClock
 from sc3.base.netaddr import NetAddr
 import sc3.base.builtins as bi
+import sc3.base.functions as sc3fn
 from props._c10seed import seed_value, seed_code, main_code
 
 CH = [10, 20, 30, 40, 50]
@@ -89,7 +91,13 @@ class Script(Exception):
 
 YVALS = {'inf': lambda: float('inf'), 'ninf': lambda: float('-inf'), 'nan': lambda: float('nan'), 'none': lambda: None,
          'true': lambda: True, 'false': lambda: False, 'str': lambda: '', 'list': lambda: [], 'nzero': lambda: -0.0,
-         'fzero': lambda: 0.0, 'izero': lambda: 0, 'neg': lambda: -0.125, 'big': lambda: 1e308, 'tuple': lambda: (1, 2)}
+         'fzero': lambda: 0.0, 'izero': lambda: 0, 'neg': lambda: -0.125, 'big': lambda: 1e308, 'tuple': lambda: (1, 2),
+         # real numbers that are neither int nor float (numpy scalars behave like these): not re-scheduled on any clock, in any mode
+         'frac': lambda: Fraction(1, 4), 'dec': lambda: decimal.Decimal('0.25'), 'real': lambda: _Real(1, 8), 'cplx': lambda: complex(0.25, 0)}
+
+
+class _Real(Fraction):
+    """a numbers.Real that is not a Fraction proper (stands for numpy.float32 and the like)"""
 
 
 class XRun:
@@ -295,6 +303,38 @@ class XRun:
                 # a lower bound on physical progress only: the task's time has come
                 self.qlog(rid, k, 'not-early', bool(K5._jit.elapsed() >= lt))
             return True
+        if kind in ('resumeon', 'playon', 'replayon'):
+            # the routine is put on ANOTHER clock while its wake-up on the first one may still be pending
+            t = self.latest.get(a[1])
+            if t is None:
+                return True
+            if a[2] != 'S' and a[2][1] >= len(self.clocks):
+                return False
+            try:
+                if kind == 'replayon':
+                    self.routs[t].reset()
+                if kind == 'resumeon':
+                    self.routs[t].resume(self.clock_of(a[2]), 0)
+                else:
+                    self.routs[t].play(self.clock_of(a[2]), 0)
+            except Exception:
+                return False
+            return True
+        if kind == 'sch2':
+            # ONE Function object scheduled on several clocks: every clock serves its own wake-up
+            n = self.nfun.get(rid, 0)
+            self.nfun[rid] = n + 1
+            run = self
+
+            def fn2(_self, clock, n=n, rid=rid):
+                run.vals.append(['q', rid, -1, 'fn', n, run.code_of(clock), run.rel(main.current_tt._seconds)])
+            task = sc3fn.Function(fn2)
+            for code, d in a[1]:
+                if code != 'S' and code[1] >= len(self.clocks):
+                    return False
+                self.clock_of(code).sched(num(d), task)
+            self.qlog(rid, k, 'sch2', n)
+            return True
         if kind in ('pause', 'resume', 'stop', 'reset', 'replay', 'play2'):
             t = self.latest.get(a[1])
             if t is None:
@@ -414,7 +454,9 @@ class XRun:
                 for a in acts:
                     kind = a[0]
                     if kind == 'Y':
-                        yield num(a[1])
+                        back = yield num(a[1])
+                        if isinstance(back, tuple) and len(back) == 2 and back[0] is rout:
+                            clock = back[1]             # the clock that performs this wake-up (a routine can be moved to another one)
                         k += 1
                         run.on_resume(rid, k, clock)
                     elif kind == 'YV':        # a yielded value that is not a finite number >= 0
